@@ -312,16 +312,26 @@ def run(F, tier, res):
                         continue       # a position produced by a search / match / length of a string
                     if _helper_position(F, roots, POS, 0):
                         continue       # ... computed by a local helper whose result is such a position (extract-function refactorings)
-                    if lits and all(v[0] == 'int' for v in lits) and not any(rr[0] in ('param', 'call') for rr in roots):
+                    only_const = bool(roots) and all(rr[0] == 'const' for rr in roots)
+                    if (lits and all(v[0] == 'int' for v in lits) and not any(rr[0] in ('param', 'call') for rr in roots)) or only_const:
                         # constant bound: must be under a prefix test (starts_with / strip_prefix / ends_with) or be 0
-                        if all(v[1] == 0 for v in lits):
+                        if lits and all(v[1] == 0 for v in lits):
                             continue
                         g = Ru.guarded_by(F, p, i, lambda rs: any(x[0] == 'call' and x[1].endswith(('::starts_with', '::ends_with', '::strip_prefix')) for x in rs))
                         if g:
                             continue
                         allok = False
                         continue
-                    # computed bound: dominated by a comparison with a len()
+                    # computed bound. Only arithmetic that can leave the string is questioned: a quotient / product / remainder / shift of
+                    # lengths or widths, a display width used as a byte offset, an offset with a constant added or subtracted. A value that
+                    # comes out of an opaque accumulation (sum / fold / scan / a helper's result ...) is a position as far as shape can tell.
+                    suspicious = any(rr[0] == 'binop' and rr[1].replace('WithOverflow', '').replace('Unchecked', '') in ('Div', 'Mul', 'Rem', 'Shr', 'Shl') for rr in roots) \
+                        or any(rr[0] == 'call' and rr[1].endswith(('::width', '::measure_text_width', '::width_cjk')) for rr in roots) \
+                        or (any(rr[0] == 'binop' and rr[1].replace('WithOverflow', '') in ('Add', 'Sub') for rr in roots) and any(v[0] == 'int' for v in lits))
+                    opaque = any(rr[0] == 'call' for rr in roots) and not any(rr[0] == 'param' and not rr[2] for rr in roots)
+                    if not suspicious and opaque:
+                        continue
+                    # ... dominated by a comparison with a len()
                     dom_ok = False
                     sig = _roots_sig(F, p, o)
                     for (swb, op, arms, other) in Ru.switches(F, p):
